@@ -5,7 +5,7 @@
 #
 # vim: set ts=4 sts=4 et tw=78 sw=4 si:
 
-from .sortabledict import SortableDict
+from .sortabledict import SortableDict, col
 from .datatypes import MARKER
 
 class MetadataObject(SortableDict):
@@ -23,7 +23,7 @@ class MetadataObject(SortableDict):
         '''
         Append the items to the metadata.
         '''
-        if isinstance(items, dict) or isinstance(items, SortableDict):
+        if isinstance(items, col.Mapping):
             items = list(items.items())
 
         # All or nothing: when one item is refused (duplicate with
